@@ -24,7 +24,7 @@ from scipy import special, linalg   # special math functions
 # import mpi                          # parallelized computations
 
 from ..core._ext.types import to_cy, LAG, FIELD, \
-    INT16TYPE, INT32TYPE, INT64TYPE
+    INT32TYPE, INT64TYPE
 from ._ext.numerics import _symmetrize_by_absmax, _cross_correlation_max, \
     _cross_correlation_all, _get_nearest_neighbors
 
@@ -727,14 +727,14 @@ class CouplingAnalysis:
 
         # Needed because numpy.bincount cannot process longs
         assert isinstance(base**D, int)
-        assert base**D*16./8./1024.**3 < 3., (
+        assert base**D*64./8./1024.**3 < 3., (
             'Dimension exceeds 3 GB of necessary memory '
             '(change this code line if you got more...)')
         assert D*base**D < 2**65, (
             f'base = {base}, D = {D}: Histogram failed:'
             ' dimension D*base**D exceeds int64 data type')
 
-        flathist = numpy.zeros((base**D), dtype=INT16TYPE)
+        flathist = numpy.zeros((base**D), dtype=INT64TYPE)
         multisymb = numpy.zeros(T, dtype=INT64TYPE)
 
         for i in range(D):
